@@ -1070,8 +1070,8 @@ func genHistory(r *hx.Rand, ln int) []Op {
 		case 1, 2, 3:
 			op = Op{Op: "Copy", I: any, J: j}
 		case 4, 5:
-			if !hasField(st.x[j], "sub") {
-				continue
+			if !hasField(st.x[j], "sub") && r.Intn(3) != 0 {
+				continue // mostly a set sub-message; sometimes the (detached, frozen) default of an unset one
 			}
 			op = Op{Op: "GetSub", I: any, J: j, Via: r.Intn(2)}
 		case 6, 7:
@@ -1331,6 +1331,18 @@ func modeProbe() {
 		{"mi-view-get_field", "imap", "proto.get_field(m, Node.mi)", nil},
 		{"mm['a'].mi-view", "imap", "m.mm['a'].mi", nil},
 		{"mm-view", "mmap", "m.mm", nil},
+		// bound methods of the views (every name in RepeatedField.AttrNames), captured as values
+		{"ri.append-method", "imethod", "m.ri.append", nil},
+		{"getattr(ri,append)", "imethod", "getattr(m.ri, 'append')", nil},
+		{"get_field-ri.append-method", "imethod", "proto.get_field(m, Node.ri).append", nil},
+		{"sub.ri.append-method", "imethod", "m.sub.ri.append", nil},
+		{"rm[0].ri.append-method", "imethod", "m.rm[0].ri.append", nil},
+		{"mm['a'].ri.append-method", "imethod", "dict(m.mm)['a'].ri.append", nil},
+		{"rm.append-method", "mmethod", "m.rm.append", nil},
+		{"go:Attr(append)", "imethod", "", func(m starlark.Value) starlark.Value {
+			v, _ := attr(m, "ri").(*sproto.RepeatedField).Attr("append")
+			return v
+		}},
 	}
 	mutations := map[string][]string{
 		"msg":   {"W.v = 2", "W.s = 'x'", "W.ri = [9]", "W.sub = None", "proto.set_field(W, Node.v, 2)", "W.mi = {'z': 1}"},
@@ -1338,6 +1350,8 @@ func modeProbe() {
 		"mlist": {"W.append(Node())", "W[0] = Node(v=7)"},
 		"imap":  {"W['a'] = 2", "W['b'] = 2"},
 		"mmap":  {"W['a'] = Node(v=7)", "W['b'] = Node()"},
+		"imethod": {"W(3)"},
+		"mmethod": {"W(Node())"},
 	}
 	for _, when := range []string{"before", "after"} {
 		for _, a := range accesses {
@@ -1372,6 +1386,45 @@ func modeProbe() {
 				})
 			}
 		}
+	}
+	// writes through the default value of an UNSET composite field (a detached frozen empty
+	// message / list / map): an error, never a host panic, and the message stays as it was
+	for _, ud := range []struct{ name, mk, src string }{
+		{"unset-default:sub.v=", "Node()", "m.sub.v = 7"},
+		{"unset-default:sub.s=", "Node(v=1)", "m.sub.s = 'x'"},
+		{"unset-default:sub.ri=", "Node()", "m.sub.ri = [1]"},
+		{"unset-default:sub.sub=", "Node()", "m.sub.sub = Node()"},
+		{"unset-default:sub.sub.v=", "Node()", "m.sub.sub.v = 1"},
+		{"unset-default:set_field(sub)", "Node()", "proto.set_field(m.sub, Node.v, 7)"},
+		{"unset-default:get_field(sub).v=", "Node()", "proto.get_field(m, Node.sub).v = 7"},
+		{"unset-default:sub.ri.append", "Node()", "m.sub.ri.append(1)"},
+		{"unset-default:sub.mi[k]=", "Node()", "m.sub.mi['a'] = 1"},
+		{"unset-default:ri.append", "Node()", "m.ri.append(1)"},
+		{"unset-default:rm.append", "Node()", "m.rm.append(Node())"},
+		{"unset-default:mi[k]=", "Node()", "m.mi['a'] = 1"},
+		{"unset-default:mm[k]=", "Node()", "m.mm['a'] = Node()"},
+		{"unset-default:set-sub-of-set-sub", "Node(sub=Node())", "m.sub.sub.v = 1"},
+		{"unset-default:rm[0].sub.v=", "Node(rm=[Node()])", "m.rm[0].sub.v = 1"},
+		{"unset-default:mm[k].sub.v=", "Node(mm={'a': Node()})", "m.mm['a'].sub.v = 1"},
+		{"unset-default:T.s_msg.s_int32=", "T()", "m.s_msg.s_int32 = 1"},
+		{"unset-default:T.s_msg.r_int32.append", "T()", "m.s_msg.r_int32.append(1)"},
+		{"unset-default:T.r_msg-elem", "T(r_msg=[T()])", "m.r_msg[0].s_msg.s_string = 'x'"},
+		{"unset-default:ext_m.v=", "X()", "proto.get_field(m, XF.ext_m).v = 1"},
+		{"unset-default:ext_m.set_field-ext", "X()", "proto.set_field(proto.get_field(m, XF.ext_m), XF.ext_s, 'q')"},
+		{"unset-default:ext_r.append", "X()", "proto.get_field(m, XF.ext_r).append(1)"},
+		{"unset-default:frozen-parent-sub.v=", "Node()", "m.sub.v = 7"},
+	} {
+		ud := ud
+		probe(ud.name, func() (string, string, bool) {
+			m := mk(ud.mk)
+			if strings.Contains(ud.name, "frozen-parent") {
+				m.Freeze()
+			}
+			before := marshalBytes(m)
+			out, msg := exec(ud.src, with(env, "m", m))
+			after := marshalBytes(m)
+			return out, msg, before != after
+		})
 	}
 	// lossless bulk stores: every value written is read back
 	probe("lossless-map-many-keys", func() (string, string, bool) {
